@@ -20,9 +20,9 @@ def run(name, also):
     os.makedirs("/tmp/mut", exist_ok=True)
     shutil.rmtree(out, ignore_errors=True)
     with GIT_LOCK:
-        subprocess.run(["git", "-C", "/repo", "worktree", "remove", "--force", wt], stderr=subprocess.DEVNULL)
-        subprocess.run(["git", "-C", "/repo", "worktree", "prune"])
-        subprocess.run(["git", "-C", "/repo", "worktree", "add", "-q", "--detach", wt, "HEAD"], check=True)
+        subprocess.run(["flock", "/tmp/gitwt.lock", "git", "-C", "/repo", "worktree", "remove", "--force", wt], stderr=subprocess.DEVNULL)
+        subprocess.run(["flock", "/tmp/gitwt.lock", "git", "-C", "/repo", "worktree", "prune"])
+        subprocess.run(["flock", "/tmp/gitwt.lock", "git", "-C", "/repo", "worktree", "add", "-q", "--detach", wt, "HEAD"], check=True)
     res = {}
     try:
         r = subprocess.run(["git", "-C", wt, "apply", os.path.join(d, "patch.diff")])
@@ -58,7 +58,7 @@ def run(name, also):
                             break
     finally:
         with GIT_LOCK:
-            subprocess.run(["git", "-C", "/repo", "worktree", "remove", "--force", wt])
+            subprocess.run(["flock", "/tmp/gitwt.lock", "git", "-C", "/repo", "worktree", "remove", "--force", wt])
         shutil.rmtree(out, ignore_errors=True)
     det = [c + " quick" for c, v in res.items() if v["violations"]]
     meta["detected_by"] = det
